@@ -56,7 +56,7 @@ PROPS = {
     ),
     "C16": dict(
         modules=["Whawty.Props.C16", "Whawty.Props.Gen"],
-        suites=[("hdrv", "c16")],
+        suites=[("hdrv", "c16"), ("overlay4", "v16cli")],
         level_text="check_exact characterises Dir.Check without reference to iteration order (proved from the fold over "
                    "readdir entries), check_perm_invariant gives order independence, init_only_on_empty and "
                    "init_produces_valid_store cover initialisation; step_preserves_valid / ops_preserve_valid: after EVERY "
@@ -70,10 +70,12 @@ PROPS = {
              "invalid-named files, double extensions; Check/List/ListFull/Exists/Init observed. Histories from an "
              "initialised store that never remove or demote the last administrator: Check, no-two-files and empty work "
              "area after every operation; for stretches of a history the work area .tmp is a regular file (every write "
-             "fails after it opened / reserved its target and must change nothing).",
+             "fails after it opened / reserved its target and must change nothing). CLI gate: the built binary, ten commands x "
+             "check enabled by default / by flag, disabled by flag / by environment, on valid, duplicate-pair, no-admin, "
+             "stray-file and empty directories: exit status and directory digest vs the gate model.",
         trusted=[T_CRYPTO, T_FS],
-        partial=["the CLI gate (exit status 3 unless --do-check=false) is decided by the run (built binary on "
-                 "generated invalid directories), not by a theorem"],
+        partial=["that main.go's commands are wired to the gate as modelled (Model/Cli.lean; refuses_invalid_directory, "
+                 "proceeds_only_if_valid_or_disabled) is decided by the run: the built binary on valid / invalid directories"],
     ),
     "C03": dict(
         modules=["Whawty.Props.C03", "Whawty.Props.Gen"],
